@@ -4,7 +4,7 @@
    universally quantified in each statement, with the hypotheses it needs spelled out. *)
 From Coq Require Import List NArith Bool Arith String.
 From Snow Require Import Lib.Wire Model.B64Url Model.AmpPath Model.CacheURL Model.Rendezvous.
-From Snow Require Import Proofs.AmpPathProofs Proofs.CacheURLProofs Proofs.RendezvousProofs.
+From Snow Require Import Proofs.AmpPathProofs Proofs.CacheURLProofs Proofs.RendezvousPathProofs Proofs.RendezvousProofs.
 Import ListNotations.
 Open Scope N_scope.
 Notation length := List.length.
@@ -84,6 +84,40 @@ Theorem C11_amp_equals_post_encoded :
   (h_status post = 200 /\ ampr = {| h_status := 200; h_body := armor (h_body post) |}) \/
   (h_status post = 500 /\ ampr = {| h_status := 500; h_body := [] |}).
 Proof. exact amp_equals_post_encoded. Qed.
+
+(* the two endpoints for EVERY decodable poll, with the cases the equality above leaves out: a poll beyond the POST
+   body limit is a 400 on /client but is taken by /amp/client/ (the handler has no limit of its own); a poll that
+   starts with '{' goes to the legacy shim on /client but is an ordinary (versioned, hence refused by IPC) poll on
+   /amp/client/. So "AMP = armored POST" holds exactly for non-legacy polls within the limit. *)
+Theorem C11_amp_vs_post_all_polls :
+  forall (client_offers : bytes -> option bytes) (legacy_post : bytes -> http_reply)
+         (armor : bytes -> bytes) (decode_error_response : option bytes) p body,
+  decode_path p = POk body ->
+  let post := post_handler client_offers legacy_post body in
+  let ampr := amp_handler client_offers armor decode_error_response (AMP_ROUTE ++ p) in
+  ampr = match client_offers body with
+         | Some r => {| h_status := 200; h_body := armor r |}
+         | None => {| h_status := 500; h_body := [] |}
+         end /\
+  (BROKER_READ_LIMIT < N.of_nat (length body) -> post = {| h_status := 400; h_body := [] |}) /\
+  (N.of_nat (length body) <= BROKER_READ_LIMIT -> is_legacy_b body = true -> post = legacy_post body) /\
+  (N.of_nat (length body) <= BROKER_READ_LIMIT -> is_legacy_b body = false ->
+     post = match client_offers body with
+            | Some r => {| h_status := 200; h_body := r |}
+            | None => {| h_status := 500; h_body := [] |}
+            end).
+Proof. exact amp_post_cases. Qed.
+
+(* the divergence is real: a '{'-leading poll for which the shim answers 503 and IPC (on the raw body) an error text *)
+Example C11_amp_vs_post_diverge_ex :
+  let co := fun b : bytes => Some (bs "{""error"":""unsupported message version""}") in
+  let lp := fun b : bytes => {| h_status := 503; h_body := [] |} in
+  decode_path (bs "0/e30") = POk (bs "{}") /\ is_legacy_b (bs "{}") = true /\
+  post_handler co lp (bs "{}") = {| h_status := 503; h_body := [] |} /\
+  amp_handler co (fun x => x) None (AMP_ROUTE ++ bs "0/e30") = {| h_status := 200; h_body := bs "{""error"":""unsupported message version""}" |} /\
+  BROKER_READ_LIMIT < N.of_nat (length (repeat 49 (N.to_nat 100001))) /\
+  h_status (post_handler co lp (repeat 49 (N.to_nat 100001))) = 400.
+Proof. vm_compute. repeat split. Qed.
 
 (* ---------------- domain prefix ---------------- *)
 
@@ -257,6 +291,98 @@ Proof.
   - apply Forall_cons; [repeat split; try discriminate; vm_compute; intuition discriminate|apply Forall_nil].
   - vm_compute. repeat split.
 Qed.
+
+(* ---------------- paths with dot and empty segments ---------------- *)
+
+(* url.ResolveReference (as both rendezvous methods use it) never leaves a "." or ".." segment in the request path,
+   whatever the broker URL's path *)
+Theorem C11_resolve_dotfree : forall base ref, Forall nodot (split_on SLASHC (resolve_path base ref)).
+Proof. exact resolve_path_dotfree. Qed.
+
+(* for a base path without dot segments it is the directory of the base path followed by the reference *)
+Theorem C11_resolve_plain : forall base c ref,
+  c <> SLASHC ->
+  Forall nodot (split_on SLASHC (upto_last SLASHC base ++ c :: ref)) ->
+  resolve_path base (c :: ref) = resolve_rel base (c :: ref).
+Proof. exact resolve_path_nodots. Qed.
+
+Example C11_resolve_ex :
+  Forall nodot (split_on SLASHC (upto_last SLASHC (bs "/x//y/z") ++ bs "client")) /\
+  resolve_path (bs "/x//y/z") (bs "client") = bs "/x//y/client" /\
+  resolve_path (bs "/x/./y/../z/") (bs "client") = bs "/x/z/client" /\
+  resolve_path (bs "/../..") (bs "amp/client/0/QQ") = bs "/amp/client/0/QQ" /\
+  resolve_path [] (bs "client") = bs "/client".
+Proof. split; [repeat (apply Forall_cons; [split; reflexivity|]); apply Forall_nil|vm_compute; repeat split]. Qed.
+
+(* CacheURL's path for ANY cache path (empty or rooted) and ANY publisher path without ".." segments: the cleaned cache
+   path, c[/s]/<host>, then the publisher path's segments except the empty and "." ones - nothing else dropped or reordered *)
+Theorem C11_cache_path_all_paths : forall pu cu,
+  (c_epath cu = [] \/ exists cp, c_epath cu = SLASHC :: cp) ->
+  p_hostname pu <> [] -> p_hostname pu <> [DOTC] -> p_hostname pu <> [DOTC; DOTC] ->
+  Forall (fun s => is_dotdot s = false) (split_on SLASHC (p_epath pu)) ->
+  lead_slash (path_join (path_components pu cu (bs "c"%string))) =
+  abs_path (clean_segs true (split_on SLASHC (c_epath cu)) [] ++ middle pu ++ filter keep (split_on SLASHC (p_epath pu))).
+Proof. exact cache_path_general. Qed.
+
+Example C11_cache_path_all_paths_ex :
+  let pu := {| p_scheme := S_HTTPS; p_user := false; p_hostname := bs "b.example"; p_port := [];
+               p_epath := bs "/x//./y/"; p_rawquery := []; p_fragment := [] |} in
+  let cu := {| c_scheme := S_HTTPS; c_user := None; c_hostname := bs "cdn.ampproject.org"; c_port := [];
+               c_epath := bs "/p/../q//"; c_rawquery := []; c_fragment := [] |} in
+  Forall (fun s => is_dotdot s = false) (split_on SLASHC (p_epath pu)) /\
+  path_join (path_components pu cu (bs "c")) = bs "/q/c/s/b.example/x/y".
+Proof. cbv zeta. split; [repeat (apply Forall_cons; [reflexivity|]); apply Forall_nil|vm_compute; reflexivity]. Qed.
+
+(* the inputs that DO lose a path component: a publisher path with a ".." segment given to the exported CacheURL eats the
+   host in front of it (the rendezvous code never does that: C11_resolve_dotfree) *)
+Theorem C11_cache_url_dotdot_loses_host :
+  exists pu cu, p_hostname pu = bs "h.example" /\ p_epath pu = bs "/../x" /\
+    option_map r_rawpath (cache_url (fun x => Some x) (fun x => Some x) (fun _ => []) h34_runes pu cu (bs "c")) = Some (bs "/c/s/x").
+Proof.
+  exists {| p_scheme := S_HTTPS; p_user := false; p_hostname := bs "h.example"; p_port := [];
+            p_epath := bs "/../x"; p_rawquery := []; p_fragment := [] |},
+         {| c_scheme := S_HTTPS; c_user := None; c_hostname := bs "cdn.ampproject.org"; c_port := [];
+            c_epath := bs "/"; c_rawquery := []; c_fragment := [] |}.
+  split; [reflexivity|split; [reflexivity|exact cache_url_dotdot_loses_host]].
+Qed.
+
+(* through an AMP cache, for EVERY broker path and every empty or rooted cache path: the request path is the cleaned cache
+   path, c[/s]/<broker host>, the non-empty segments of the (dot-free) resolved broker path - and it ends in the broker's
+   AMP route followed by the encoded poll, which decodes to the poll *)
+Theorem C11_amp_cache_end_to_end_all_paths :
+  forall (to_unicode to_ascii : bytes -> option bytes) (sha256 : bytes -> bytes) (h34 : bytes -> bool)
+         b cu front cb data q,
+  wf_bytes data -> data <> [] ->
+  (c_epath cu = [] \/ exists cp, c_epath cu = SLASHC :: cp) ->
+  b_hostname b <> [DOTC] -> b_hostname b <> [DOTC; DOTC] ->
+  amp_request to_unicode to_ascii sha256 h34 b (Some cu) front cb data = Some q ->
+  q_path q = abs_path (clean_segs true (split_on SLASHC (c_epath cu)) [] ++ middle (amp_pub_url b cb data) ++
+                       filter nonempty (split_on SLASHC (p_epath (amp_pub_url b cb data)))) /\
+  Forall nodot (split_on SLASHC (p_epath (amp_pub_url b cb data))) /\
+  (exists pre, q_path q = pre ++ AMP_ROUTE ++ encode_path cb data) /\
+  decode_path (encode_path cb data) = POk data.
+Proof. exact amp_cache_end_to_end_general. Qed.
+
+Example C11_amp_cache_end_to_end_all_paths_ex :
+  let b := {| b_scheme := S_HTTPS; b_user := false; b_host := bs "broker.example"; b_hostname := bs "broker.example";
+              b_port := []; b_epath := bs "/x/../y//z" |} in
+  let cu := {| c_scheme := S_HTTPS; c_user := None; c_hostname := bs "cdn.ampproject.org"; c_port := [];
+               c_epath := bs "/p/./q"; c_rawquery := []; c_fragment := [] |} in
+  wf_bytes (bs "ABC") /\ (exists cp, c_epath cu = SLASHC :: cp) /\
+  option_map q_path (amp_request (fun x => Some x) (fun x => Some x) (fun _ => []) h34_runes b (Some cu) [] (repeat 255 9) (bs "ABC")) =
+    Some (bs "/p/q/c/s/broker.example/y/amp/client/0____________/QUJD").
+Proof. cbv zeta. split; [repeat constructor|split; [eexists; reflexivity|vm_compute; reflexivity]]. Qed.
+
+(* the one poll that does not survive a cache: the empty one (its last, empty, path segment is removed by path.Join) *)
+Theorem C11_amp_cache_empty_poll :
+  forall (to_unicode to_ascii : bytes -> option bytes) (sha256 : bytes -> bytes) (h34 : bytes -> bool)
+         b cu front cb q,
+  (c_epath cu = [] \/ exists cp, c_epath cu = SLASHC :: cp) ->
+  b_hostname b <> [DOTC] -> b_hostname b <> [DOTC; DOTC] ->
+  amp_request to_unicode to_ascii sha256 h34 b (Some cu) front cb [] = Some q ->
+  (exists pre, q_path q = pre ++ AMP_ROUTE ++ enc_seg1 cb) /\ decode_path (enc_seg1 cb) = PErr MissingData /\
+  decode_path (encode_path cb []) = POk [].
+Proof. exact amp_cache_empty_poll. Qed.
 
 (* ---------------- client: bounded responses ---------------- *)
 
